@@ -10,6 +10,7 @@ from genlm.grammar.wfsa import WFSA as FieldWFSA
 from genlm.grammar.wfsa.base import WFSA as BaseWFSA
 
 sys.path.insert(0, __file__.rsplit("/", 1)[0])
+import cfgops  # noqa: E402
 from cfgops import enc, tname, Timeout, build  # noqa: E402
 
 
@@ -18,7 +19,11 @@ def sym(a):
 
 
 def osym(b):
-    return EPSILON if b is None else chr(ord("A") + b)   # output alphabet uses upper-case letters
+    if b is None:
+        return EPSILON
+    if cfgops.TMODE["mode"] == "int":
+        return b          # integer output symbols (0 is falsy)
+    return chr(ord("A") + b)   # output alphabet uses upper-case letters
 
 
 def conv(w, flt):
@@ -228,6 +233,14 @@ def run_query(q):
         sl, sr_ = G.solve_left(b), G.solve_right(b)
         f = lambda ch: {(str(k) if not isinstance(k, tuple) else f"{k[0]},{k[1]}"): sorted(v.score) for k, v in ch.items() if v.score}
         return {"scc": f(K1), "ref": f(K2), "solve_left": f(sl), "solve_right": f(sr_)}
+    if op == "blocks_only":
+        from genlm.grammar.linear import WeightedGraph
+
+        G = WeightedGraph(Float)
+        for i, j in q["edges"]:
+            G[i, j] += Fraction(1, 4)
+        G.N |= set(q["nodes"])
+        return [sorted(bl) for bl in G.blocks]
     if op == "closure":
         from genlm.grammar.linear import WeightedGraph
 
@@ -321,6 +334,7 @@ def main():
     out = []
     for job in req["jobs"]:
         res = []
+        cfgops.TMODE["mode"] = job.get("tnames", "str")
         for q in job["queries"]:
             signal.alarm(int(q.get("timeout", 20)))
             try:
